@@ -2,9 +2,12 @@
    case (0 items)                -> IR placement (what the harness compares with the real Program)
    case (1 inputs n items)       -> firmware phases (model), reference (CPython) phases, guards
    case (2 pollpins ticks setup passes) -> the temporal monitors on an abstract trace (also used on
-                                    abstracted REAL firmware traces) *)
+                                    abstracted REAL firmware traces)
+   case (3 n pre loop)           -> pin-expression sketch (Lang/EmitPin.v): executed trace with emit()'s keys, guard,
+                                    monitor, and the trace with the text-only keys
+   case (4 trace)                -> the numeric-pin monitor on a (real) trace *)
 From Coq Require Import ZArith List Bool.
-From RV Require Import Base.Wire Lang.Split Lang.Emit.
+From RV Require Import Base.Wire Lang.Split Lang.Emit Lang.EmitPin.
 Import ListNotations.
 Open Scope Z_scope.
 
@@ -193,6 +196,80 @@ Definition enc_ev (e : ev) : wv :=
 Definition enc_evs (t : list ev) : wv := WL (map enc_ev t).
 Definition enc_passes (l : list (list ev)) : wv := WL (map enc_evs l).
 
+(* ------------------------------------------------------------------ pin expressions *)
+Definition dec_pexp (v : wv) : option pexp :=
+  match v with
+  | WL [WI 0; WI z] => Some (PLit z)
+  | WL [WI 1; WI x] => Some (PVar x)
+  | WL [WI 2; WI x; WI k] => Some (PAdd x k)
+  | _ => None
+  end.
+
+Fixpoint dec_pexps (l : list wv) : option (list pexp) :=
+  match l with
+  | [] => Some []
+  | x :: r => match dec_pexp x, dec_pexps r with Some e, Some es => Some (e :: es) | _, _ => None end
+  end.
+
+Definition dec_qkind (z : Z) : option qkind :=
+  match z with
+  | 0 => Some QLed | 1 => Some QRGB | 2 => Some QUltra | 3 => Some QBuzzer | 4 => Some QMotor | 5 => Some QButton
+  | _ => None
+  end.
+
+Definition dec_pstmt (v : wv) : option pstmt :=
+  match v with
+  | WL [WI 0; WI x; e] => option_map (QSet x) (dec_pexp e)
+  | WL [WI 1; WI k; WI nm; WL pins] =>
+      match dec_qkind k, dec_pexps pins with Some kk, Some pp => Some (QDecl kk nm pp) | _, _ => None end
+  | WL [WI 2; WI nm] => Some (QCmd nm)
+  | _ => None
+  end.
+
+Fixpoint dec_pstmts (l : list wv) : option (list pstmt) :=
+  match l with
+  | [] => Some []
+  | x :: r => match dec_pstmt x, dec_pstmts r with Some s, Some ss => Some (s :: ss) | _, _ => None end
+  end.
+
+Definition enc_pev (e : pev) : wv :=
+  match e with
+  | PCfg p m => WL [WI 0; WI p; WI m]
+  | PUse p w => WL [WI 1; WI p; wbool w]
+  end.
+
+Definition dec_pev (v : wv) : option pev :=
+  match v with
+  | WL [WI 0; WI p; WI m] => Some (PCfg p m)
+  | WL [WI 1; WI p; w] => option_map (PUse p) (un_bool w)
+  | _ => None
+  end.
+
+Fixpoint dec_pevs (l : list wv) : option (list pev) :=
+  match l with
+  | [] => Some []
+  | x :: r => match dec_pev x, dec_pevs r with Some e, Some es => Some (e :: es) | _, _ => None end
+  end.
+
+Definition run_pin (v : wv) : wv :=
+  match v with
+  | WL [WI 3; WI n; WL pre; WL lp] =>
+      match dec_pstmts pre, dec_pstmts lp with
+      | Some a, Some b =>
+          let p := mkQ a b in
+          let t := run_sketch kf_real p (Z.to_nat n) in
+          wok [WL (map enc_pev t); wbool (pins_tracked kf_real p (Z.to_nat n)); wbool (pcbu t);
+               WL (map enc_pev (run_sketch kf_text p (Z.to_nat n)))]
+      | _, _ => wbad
+      end
+  | WL [WI 4; WL t] =>
+      match dec_pevs t with
+      | Some tr => wok [wbool (pcbu tr)]
+      | None => wbad
+      end
+  | _ => wbad
+  end.
+
 (* ------------------------------------------------------------------ run *)
 Definition run (v : wv) : wv :=
   match v with
@@ -230,5 +307,7 @@ Definition run (v : wv) : wv :=
                wbool (forallb (fun e => negb (is_hk e)) s)]
       | _, _, _, _ => wbad
       end
+  | WL (WI 3 :: _) => run_pin v
+  | WL (WI 4 :: _) => run_pin v
   | _ => wbad
   end.
